@@ -47,6 +47,7 @@ type Contract struct {
 	Ensures  []*Clause
 	Invs     []*Clause
 	Decs     []*Clause
+	Steps    []*Clause // loop k step: relation between one header visit and the next (loopstep.go)
 	Assigns  string   // "", "fresh-only", "nothing", "any"
 	Modifies []string // state names writable in addition
 	Tags     []string // properties that implicit safety obligations belong to
@@ -61,6 +62,9 @@ type Contract struct {
 	Line     int
 	Waive    []string // obligation name patterns that are known findings handled elsewhere
 	Calls    []CallClause
+	GhostEntry []GhostAssign // ghost assignments executed at function entry (ghost.go)
+	GhostExit  []GhostAssign // ghost assignments executed at every return (ghost.go)
+	IterEns  []*Clause // `loop k ensures`: per-iteration postconditions, checked at back edges only (effects.go)
 }
 
 type CallClause struct {
@@ -87,16 +91,18 @@ type ContractSet struct {
 	Macros    map[string]*SpecMacro
 	Ghosts    []GhostVar
 	GlobalFacts map[string][]Expr
+	Shadowed  []string // duplicate assumed contracts that were ignored
 	Files     []string
+	Decls     effectDecls // fnfield / actorchan / guarded declarations (effects.go)
 }
 
-var clauseKW = regexp.MustCompile(`^(func|interface|extern|lemma|spec|ghost|globalfact|requires|ensures|assigns|modifies|loop|tags|overflow|abstract|fnparam|pure|trusted|returns|waive|call)\b`)
+var clauseKW = regexp.MustCompile(`^(func|interface|extern|lemma|spec|ghost|globalfact|fnfield|actorchan|guarded|requires|ensures|assigns|modifies|loop|tags|overflow|abstract|fnparam|pure|trusted|returns|waive|call|ghostentry|ghostexit)\b`)
 var headRe = regexp.MustCompile(`^(func|interface|extern)\s+(\([^)]*\)\.)?([A-Za-z0-9_.$/\-]+)\s*\(([^)]*)\)\s*(.*)$`)
 var lemmaRe = regexp.MustCompile(`^lemma(\[[^\]]*\])?\s+([A-Za-z0-9_.$]+)\s*\(([^)]*)\)\s*$`)
 var specRe = regexp.MustCompile(`^spec\s+([A-Za-z0-9_$]+)\s*\(([^)]*)\)\s*=\s*(.*)$`)
 var ensRe = regexp.MustCompile(`^(requires|ensures)(\[[^\]]*\])?\s+(?:([A-Za-z_][A-Za-z0-9_.]*):\s+)?(.*)$`)
 var callRe = regexp.MustCompile(`^call\s+([A-Za-z_][A-Za-z0-9_]*)\s*=\s*(\(?[^()]*\)?\.?[A-Za-z0-9_.$/]+)\s*\((.*)\)\s*$`)
-var loopRe = regexp.MustCompile(`^loop\s+(\d+)\s+(invariant|decreases)(\[[^\]]*\])?\s+(?:([A-Za-z_][A-Za-z0-9_.]*):\s+)?(.*)$`)
+var loopRe = regexp.MustCompile(`^loop\s+(\d+)\s+(invariant|decreases|ensures|step)(\[[^\]]*\])?\s+(?:([A-Za-z_][A-Za-z0-9_.]*):\s+)?(.*)$`)
 
 func splitList(s string) []string {
 	var out []string
@@ -218,7 +224,14 @@ func (cs *ContractSet) LoadFile(path, pkg string) error {
 				return errf("trailing text after header: %s", rest)
 			}
 			if _, dup := cs.Contracts[c.Name]; dup {
-				return errf("duplicate contract %s", c.Name)
+				if c.Kind == "func" {
+					return errf("duplicate contract %s", c.Name)
+				}
+				// assumed contracts (extern/interface) may be stated by several spec files: the first one wins,
+				// later ones are parsed but ignored
+				cs.Shadowed = append(cs.Shadowed, fmt.Sprintf("%s:%d %s", rc.file, rc.line, c.Name))
+				cur = c
+				continue
 			}
 			cs.Contracts[c.Name] = c
 			cs.Order = append(cs.Order, c)
@@ -270,6 +283,11 @@ func (cs *ContractSet) LoadFile(path, pkg string) error {
 			}
 			cs.GlobalFacts[pkg+"."+fs[0]] = append(cs.GlobalFacts[pkg+"."+fs[0]], e)
 			cur = nil
+		case strings.HasPrefix(t, "fnfield ") || strings.HasPrefix(t, "actorchan ") || strings.HasPrefix(t, "guarded "):
+			if err := cs.Decls.parse(t, pkg); err != nil {
+				return errf("%v", err)
+			}
+			cur = nil
 		case strings.HasPrefix(t, "ghost "):
 			kv := strings.SplitN(strings.TrimSpace(t[6:]), ":", 2)
 			if len(kv) != 2 {
@@ -314,7 +332,12 @@ func (cs *ContractSet) LoadFile(path, pkg string) error {
 					return errf("%v in: %s", err, m[5])
 				}
 				cl := &Clause{Kind: m[2], Loop: k, Props: parseProps(m[3]), Label: m[4], Expr: e, Text: m[5], File: rc.file, Line: rc.line}
-				if m[2] == "invariant" {
+				if m[2] == "ensures" {
+					if cl.Label == "" {
+						cl.Label = strconv.Itoa(len(cur.IterEns))
+					}
+					cur.IterEns = append(cur.IterEns, cl)
+				} else if m[2] == "invariant" {
 					if cl.Label == "" {
 						n := 0
 						for _, o := range cur.Invs {
@@ -325,6 +348,12 @@ func (cs *ContractSet) LoadFile(path, pkg string) error {
 						cl.Label = strconv.Itoa(n)
 					}
 					cur.Invs = append(cur.Invs, cl)
+				} else if m[2] == "step" {
+					// loop k step lbl: <expr over header values x and back-edge values next_x>  (w-c12, loopstep.go)
+					if cl.Label == "" {
+						cl.Label = strconv.Itoa(len(cur.Steps))
+					}
+					cur.Steps = append(cur.Steps, cl)
 				} else {
 					cur.Decs = append(cur.Decs, cl)
 				}
@@ -355,6 +384,18 @@ func (cs *ContractSet) LoadFile(path, pkg string) error {
 				cur.Trusted = true
 			case strings.HasPrefix(t, "returns"):
 				cur.Results = splitList(strings.Trim(strings.TrimSpace(t[7:]), "()"))
+			case strings.HasPrefix(t, "ghostexit"):
+				ga, ok := parseGhostEntry(t)
+				if !ok {
+					return errf("bad ghostexit clause: %s", t)
+				}
+				cur.GhostExit = append(cur.GhostExit, ga)
+			case strings.HasPrefix(t, "ghostentry"):
+				ga, ok := parseGhostEntry(t)
+				if !ok {
+					return errf("bad ghostentry clause: %s", t)
+				}
+				cur.GhostEntry = append(cur.GhostEntry, ga)
 			case strings.HasPrefix(t, "call "):
 				// call r = (rel.String).Less(a, b)   -- lemma only: use the *contract* of a function
 				m := callRe.FindStringSubmatch(t)
